@@ -742,8 +742,9 @@ fn run_pool(
                 continue;
             }
             // A case hangs when the worker has burnt `timeout` seconds of CPU on it
-            // (independent of how loaded the machine is), or when it has made no
-            // progress for 8 x `timeout` of wall clock (blocked or sleeping).
+            // (independent of how loaded the machine is), when `timeout` of wall clock
+            // has passed and it is blocked (all threads asleep, no CPU used), or when it
+            // has made no progress for 8 x `timeout` of wall clock.
             let seq = slot.marks.read().0;
             if seq != slot.last_seq {
                 slot.last_seq = seq;
@@ -752,7 +753,13 @@ fn run_pool(
             } else if now.duration_since(slot.last_change) > timeout {
                 let wall = now.duration_since(slot.last_change);
                 let cpu = proc_cpu_s(slot.child.id()).map(|c| c - slot.cpu_at_change);
-                if cpu.is_none_or(|c| c > timeout.as_secs_f64()) || wall > timeout * 8 {
+                // blocked: every thread of the worker sleeps, it has used next to no CPU since
+                // the case began (a starved worker is runnable, not asleep) and it is not
+                // waiting for a child process of its own
+                let blocked = cpu.is_some_and(|c| c < 0.2)
+                    && proc_all_threads_asleep(slot.child.id())
+                    && !proc_has_children(slot.child.id());
+                if cpu.is_none_or(|c| c > timeout.as_secs_f64()) || blocked || wall > timeout * 8 {
                     slot.killed_for_hang = true;
                     let _ = slot.child.kill();
                 }
@@ -779,6 +786,36 @@ fn proc_cpu_s(pid: u32) -> Option<f64> {
     let ticks: u64 = (11..15).map(|i| f.get(i).and_then(|x| x.parse::<u64>().ok())).sum::<Option<u64>>()?;
     let hz = unsafe { libc::sysconf(libc::_SC_CLK_TCK) }.max(1) as f64;
     Some(ticks as f64 / hz)
+}
+
+/// Does the process have child processes (it may be waiting for one)?
+fn proc_has_children(pid: u32) -> bool {
+    let Ok(tasks) = std::fs::read_dir(format!("/proc/{pid}/task")) else { return false };
+    for t in tasks.flatten() {
+        match std::fs::read_to_string(t.path().join("children")) {
+            Ok(c) if !c.trim().is_empty() => return true,
+            Ok(_) => {}
+            // no CONFIG_PROC_CHILDREN: be conservative
+            Err(_) => return true,
+        }
+    }
+    false
+}
+
+/// Are all threads of the process in an (interruptible or uninterruptible) sleep?
+fn proc_all_threads_asleep(pid: u32) -> bool {
+    let Ok(tasks) = std::fs::read_dir(format!("/proc/{pid}/task")) else { return false };
+    let mut any = false;
+    for t in tasks.flatten() {
+        let Ok(stat) = std::fs::read_to_string(t.path().join("stat")) else { continue };
+        let Some(i) = stat.rfind(')') else { continue };
+        let state = stat[i + 1..].split_whitespace().next().unwrap_or("R");
+        any = true;
+        if !matches!(state, "S" | "D") {
+            return false;
+        }
+    }
+    any
 }
 
 fn load_findings(property: &str) -> Vec<Finding> {
